@@ -513,10 +513,42 @@ def r8_combiners_keep_both(run, F):
     run.floor("R8-COMBINERS-KEEP-BOTH", 19, "obligations on the four places where two results are joined (combine, accumulate, Vec fold, pair)")
 
 
+def r9_every_declaration_linted(run, F):
+    """L1800 (a braced if-branch that starts with `loop`) is a verdict on the *source*, observed at `Compiler::take_lints()` whatever
+    else is wrong with the function: the linter runs on every declaration the analyzer hands back.  Decided on the MIR of the
+    per-declaration closure of `analyze_and_resolve_sorted`: the call of `Linter::lint` is dominated by the call of
+    `Analyzer::analyze` (it sees the analysed declaration) and every path from that call to a normal return of the closure passes
+    through it -- in particular it does not hang on the outcome of `resolver::resolve`, which fails exactly for the functions that
+    have another error."""
+    cl = None
+    for p, b in F.lib.bodies.items():
+        if p.startswith("alpha::Compiler::analyze_and_resolve_sorted::{closure") and "mir" in b:
+            cfg = mirq.CFG(b)
+            if any((mirq.call_target(t) or "") == "alpha::analyzer::Analyzer::analyze" for i, t in cfg.calls()):
+                cl = b
+    run.require(cl is not None, "closure calling analyzer.analyze not found in analyze_and_resolve_sorted")
+    cfg = mirq.CFG(cl)
+    ana = [i for i, t in cfg.calls() if mirq.call_target(t) == "alpha::analyzer::Analyzer::analyze"]
+    lint = [i for i, t in cfg.calls() if mirq.call_target(t) == "alpha::linter::Linter::lint"]
+    ok = bool(lint) and all(any(cfg.dominates(a, l) for a in ana) for l in lint)
+    run.ob("R9-EVERY-DECLARATION-LINTED", "lint after analyze", ok, F.where(cl, cfg.term(lint[0])) if lint else F.where(cl),
+           "Linter::lint is called on the declaration the analyzer produced (%d lint call(s), %d analyze call(s))" % (len(lint), len(ana)))
+    escaped = []
+    if lint:
+        for a in ana:
+            seen = cfg.reachable_from(cfg.succ[a], cut=set(lint))
+            escaped += [x for x in seen if x in cfg.exits()]
+    run.ob("R9-EVERY-DECLARATION-LINTED", "lint on every path", bool(lint) and not escaped, F.where(cl, cfg.term(lint[0])) if lint else F.where(cl),
+           "every path from Analyzer::analyze to a normal return of the closure passes through Linter::lint (the lint may not depend on the "
+           "outcome of resolver::resolve or of code generation); %d return block(s) reachable around it" % len(set(escaped)))
+    run.floor("R9-EVERY-DECLARATION-LINTED", 2, "obligations on the per-declaration closure")
+
+
 def check(run):
     F = run.facts("B")
     r7_errors_merged(run, F)
     r8_combiners_keep_both(run, F)
+    r9_every_declaration_linted(run, F)
     # a `loop` that ends a block is only *accepted* if the looped block compiles: the back edge needs a block of its own (shared with C03.R11)
     from props import c03 as _c03
     _c03.r11_branch_targets(run, F)
